@@ -1508,6 +1508,21 @@ class Builtins:
             return SV(V.ListV(vals.valseq([V.BytesV(h), V.BytesV(t)])), 'list:bytes')
         return SV(V.ListV(vals.valseq([V.BytesV(sv)])), 'list:bytes')
 
+    def dm_rpartition(self, it, obj, a, k):
+        """s.rpartition(sep): three strings; exact only in what callers here use: head + sep + tail == s when sep occurs"""
+        self._need(it, obj, V.is_StrV, '.rpartition()')
+        sep = it.refine(a[0].t)
+        if O.ctor(sep) != 'StrV':
+            raise Unsupported('rpartition with a non-string separator')
+        sv, sp = V.s(obj.t), sep.arg(0)
+        H = self.world.uf('rpart_head!', [StrS, StrS, StrS])
+        T = self.world.uf('rpart_tail!', [StrS, StrS, StrS])
+        if it.branch(z3.Contains(sv, sp), 'rpartition'):
+            h, t = H(sv, sp), T(sv, sp)
+            it.assume_axiom(z3.Implies(z3.Contains(sv, sp), z3.And(sv == z3.Concat(h, sp, t), z3.Not(z3.Contains(t, sp)))))
+            return SV(V.TupleV(vals.valseq([V.StrV(h), V.StrV(sp), V.StrV(t)])), 'tuple:str')
+        return SV(V.TupleV(vals.valseq([V.StrV(z3.StringVal('')), V.StrV(z3.StringVal('')), V.StrV(sv)])), 'tuple:str')
+
     def dm_splitlines(self, it, obj, a, k):
         self._need(it, obj, V.is_StrV, '.splitlines()')
         LINES = self.world.uf('splitlines!', [StrS, vals.SeqVal])
